@@ -50,24 +50,33 @@ Late(b)     == HeightOf(b) >= StartT
 Range(s) == {s[i] : i \in 1..Len(s)}
 
 \* script (address id) of an outpoint; 0 = a script nobody watches
-OutScript(o) == IF o >= 1 /\ o <= NT THEN TxPays[o]
-                ELSE IF o > NT /\ o - NT <= Len(ExtScript) THEN ExtScript[o - NT]
-                ELSE 0
+OutScript(o) ==
+  IF o >= 10
+  THEN LET t == o \div 10
+           j == o % 10
+       IN  IF t <= NT /\ j < Len(TxOuts[t]) THEN TxOuts[t][j + 1] ELSE 0
+  ELSE IF o >= 1 /\ o <= Len(ExtScript) THEN ExtScript[o] ELSE 0
 
 AddrsOf(items) == {i \in items : i < 100}
 OutsOf(items)  == {i - 100 : i \in {j \in items : j >= 100}}
 
+\* does transaction t spend one of the outpoints wo / which outpoints does it
+\* create by paying one of the addresses wa
+SpendsAny(t, wo) == \E k \in 1..Len(TxIns[t]) : TxIns[t][k] # 0 /\ TxIns[t][k] \in wo
+Created(t, wa)   == {10 * t + (k - 1) : k \in {n \in 1..Len(TxOuts[t]) :
+                                                  TxOuts[t][n] # 0 /\ TxOuts[t][n] \in wa}}
+
 \* The relevant transactions of a block in block order, given the watched
-\* addresses and outpoints; an output paying a watched address becomes a
+\* addresses and outpoints; EVERY output paying a watched address becomes a
 \* watched outpoint for the transactions after it.
 RECURSIVE ScanTxs(_, _, _, _, _)
 ScanTxs(txs, i, wa, wo, acc) ==
   IF i > Len(txs) THEN [rel |-> acc, learned |-> wo]
   ELSE LET t  == txs[i]
-           sp == TxSpends[t] # 0 /\ TxSpends[t] \in wo
-           py == TxPays[t] # 0 /\ TxPays[t] \in wa
-       IN  ScanTxs(txs, i + 1, wa, IF py THEN wo \cup {t} ELSE wo,
-                   IF sp \/ py THEN Append(acc, t) ELSE acc)
+           sp == SpendsAny(t, wo)
+           cr == Created(t, wa)
+       IN  ScanTxs(txs, i + 1, wa, wo \cup cr,
+                   IF sp \/ cr # {} THEN Append(acc, t) ELSE acc)
 
 ----------------------------------------------------------------------------
 \* Abstract state: what the caller has been told and has asked for.
@@ -133,8 +142,7 @@ TakeUpd(a, u) ==
       lacks(ent) == \E j \in 1..Len(TxsOf(ent.b)) :
                       LET t == TxsOf(ent.b)[j]
                       IN  /\ t \notin ent.txs
-                          /\ \/ (TxPays[t] # 0 /\ TxPays[t] \in na)
-                             \/ (TxSpends[t] # 0 /\ TxSpends[t] \in no)
+                          /\ (Created(t, na) # {} \/ SpendsAny(t, no))
       mark(ent) == [ent EXCEPT !.owed = @ \/ (u.rw > 0 /\ HeightOf(ent.b) > u.rw
                                                /\ Late(ent.b) /\ lacks(ent))]
   IN  [a EXCEPT !.watch = @ \cup Range(u.add),
